@@ -56,7 +56,8 @@ DIRECTED = [
     ("bad-date", "name from t where modified = '2017-05-01 10:61'", 2), ("bad-date", "name from t where modified >= +x", 2),
     ("bad-date", "name from t where modified = '-ab'", 2), ("bad-date", "name from t where modified > '+x'", 2),
     ("bad-date", "name from t where modified = '-'", 2), ("bad-date", "name from t where modified < '+1.5'", 2),
-    ("bad-date", "name from t where modified = '--1'", 2),
+    ("bad-date", "name from t where modified = '--1'", 2), ("bad-date", "name from t where modified = 'ÀÉÎÀÉ'", 2),
+    ("bad-date", "name from t where modified > 'étéété'", 2), ("bad-date", "name from t where modified < '日本語日本'", 2),
     ("bad-boolean", "name from t where is_dir = maybe", 2), ("bad-boolean", "name from t where is_file != 2", 2),
     ("bad-boolean", "name from t where user_read = 'si'", 2),
     ("bad-function-argument", "rand(x) from t", 2), ("bad-function-argument", "rand(1, y) from t", 2),
@@ -290,7 +291,8 @@ def run_job(job):
                     cls = "mutation"
                 else:
                     f = rng.choice(FUNCS)
-                    a = rng.choice(["", "name", "'x'", "'abc'", "-5", "2.5", "99999999999999999999", "size", "''", "*", "name, name, name", "modified", "ext"])
+                    a = rng.choice(["", "name", "'x'", "'abc'", "-5", "2.5", "99999999999999999999", "size", "''", "*", "name, name, name", "modified", "ext",
+                                    "'ÀÉÎÀÉ'", "'日本語日本'", "'next friday'", "'ß'"])
                     b = rng.choice(["", ", x", ", -1", ", 1.5", ", 'y', 'z'", ", 99999999999999999999", ", name", ", -100", ", 100", ", 0", ", -4, 2",
                                     ", 2, 1000000", ", -2147483648", ", 2147483647", ", 1, 0", ", '%.99999999999k'", ", '%.999'", ", '%.-1'", ", -0", ", 1e3"])
                     toks = ["%s(%s%s)" % (f, a, b if a else ""), "from", "t"]
